@@ -45,7 +45,10 @@ ScenarioSpace(maxL) ==
              reads : UNION { Compositions(l) : l \in 0..maxL }, eofData : BOOLEAN,
              decl : {"eq", "lt", "gt", "unk"}, closer : {"none", "closer", "both"},
              fault : {"none", "head", "body", "trailer"}, panicAt : 0..(maxL + 1),
-             post : {"release", "reset", "setbody"} ] :
+             post : {"release", "reset", "setbody", "closestream"},
+             closeErr : BOOLEAN,                      \* the stream's Close / CloseWithError return an error
+             connFault : {"none", "after-write"},     \* client: the connection dies after the request was written
+             retryOK : BOOLEAN ] :                    \* client: method / RetryIf callbacks allow a retry
       /\ SumSeq(sc.reads) = sc.L
       /\ sc.decl = "lt" => sc.L >= 1
       /\ sc.eofData => sc.reads # <<>>
@@ -53,7 +56,13 @@ ScenarioSpace(maxL) ==
       /\ sc.fault = "trailer" => sc.decl = "unk"
       /\ sc.closer = "both" => sc.owner = "resp"      \* CloseWithError is a Response-side contract
       /\ sc.fault = "none" \/ sc.panicAt = 0      \* one disturbance per scenario (see note at Step)
-      /\ sc.kind # "write" => (sc.fault = "none" /\ sc.panicAt = 0 /\ sc.decl \in {"eq", "unk"} /\ ~sc.eofData) }
+      /\ sc.kind # "write" => (sc.fault = "none" /\ sc.panicAt = 0 /\ sc.decl \in {"eq", "unk"} /\ ~sc.eofData)
+      /\ sc.closeErr => sc.closer # "none"
+      \* scenarios of a request sent through a client over a connection that may die
+      /\ (sc.connFault # "none" \/ sc.retryOK) =>
+            (sc.owner = "req" /\ sc.kind = "write" /\ sc.fault = "none" /\ sc.panicAt = 0 /\ sc.decl \in {"eq", "unk"}) }
+
+ViaClient(sc) == sc.connFault # "none" \/ sc.retryOK
 
 InitSt(sc) ==
   [ sc |-> sc, phase |-> "attached", attached |-> TRUE, i |-> 1,
@@ -64,6 +73,10 @@ InitSt(sc) ==
     closeCount |-> 0,       \* calls of the stream's Close
     cweCount |-> 0,         \* calls of CloseWithError
     cweErr |-> FALSE,       \* ... with a non-nil error
+    cerrW |-> FALSE,        \* the stream's close error was returned by the write
+    attempts |-> 0,         \* client: connections the request was written to
+    doOK |-> FALSE,         \* client: Do returned nil
+    answered |-> -1,        \* client: body bytes received by the peer that answered
     closeAfterWrite |-> -1 ]
 
 HasCloser(sc) == sc.closer # "none"
@@ -107,7 +120,16 @@ Step(st) ==
                THEN [st EXCEPT !.werr = TRUE, !.phase = "closing"]                              \* last chunk or trailer fails
                ELSE [st EXCEPT !.framed = TRUE, !.phase = "closing"])                           \* WriteTrailer
     [] st.phase = "closing" ->                                                                  \* CloseStream
-         LET s2 == DoClose(st, st.werr) IN [s2 EXCEPT !.phase = "post", !.closeAfterWrite = s2.closeCount]
+         \* the stream is detached whatever its Close returns; a close error is reported by the write
+         LET s2 == DoClose(st, st.werr) IN
+         [s2 EXCEPT !.phase = IF ViaClient(sc) THEN "response" ELSE "post", !.closeAfterWrite = s2.closeCount,
+                    !.cerrW = sc.closeErr, !.attempts = 1]
+    [] st.phase = "response" ->                                                                 \* HostClient.Do
+         \* a body stream is consumed by the first write, so the request is never written again: when
+         \* the write failed, or the connection died before a response arrived, Do reports the error
+         IF st.werr \/ st.cerrW \/ sc.connFault = "after-write"
+         THEN [st EXCEPT !.phase = "post"]
+         ELSE [st EXCEPT !.phase = "post", !.doOK = TRUE, !.answered = st.delivered]
     [] st.phase = "panicked" ->
          [st EXCEPT !.phase = "post", !.closeAfterWrite = st.closeCount]
     [] st.phase = "post" ->                                                                     \* Reset / Release / Replace
@@ -136,7 +158,13 @@ ErrorReported(st) ==
   (st.phase = "end" /\ st.sc.kind = "write" /\
      (st.sc.fault # "none" \/ st.sc.decl \in {"lt", "gt"})) => (st.werr \/ st.panicked)
 
-StInv(st) == /\ CloseAtMostOnce(st) /\ AttachedMeansOpen(st) /\ ClosedOnceAtEnd(st)
+\* client: success means that the peer which answered received exactly the stream's bytes, and a
+\* request with a body stream is written to at most one connection
+ClientSuccessExact(st) == st.doOK => (st.answered = st.sc.L /\ st.framed)
+SentAtMostOnce(st) == st.attempts <= 1
+
+StInv(st) == /\ ClientSuccessExact(st) /\ SentAtMostOnce(st)
+             /\ CloseAtMostOnce(st) /\ AttachedMeansOpen(st) /\ ClosedOnceAtEnd(st)
              /\ ClosedRightAfterWrite(st) /\ NeverMoreThanProduced(st) /\ NeverMoreThanDeclared(st)
              /\ ExactWhenFramed(st) /\ SuccessIffFramed(st) /\ ErrorReported(st)
 
